@@ -87,6 +87,10 @@ def _exponential(digits: str, e: int) -> str:
 # Arrays have no holes, so a length is an allocation; refuse absurd ones
 MAX_DENSE_ARRAY_LENGTH = 2**24
 
+_REGEXP_ACCESSORS = frozenset(
+    ("source", "flags", "global", "ignoreCase", "multiline", "dotAll", "unicode", "sticky")
+)
+
 _MAX_SAFE = 9007199254740992  # 2**53: every integer up to here is a double
 
 
@@ -1422,6 +1426,16 @@ class VM:
                 "lastIndex",
             ):
                 return obj.get(key_str)
+            if obj.has(key_str):
+                return obj.get(key_str)  # a property the script has added
+            if key_str in obj._getters:
+                return self._invoke_getter(obj._getters[key_str], obj)
+            if key_str == "constructor":
+                return self.globals.get("RegExp", UNDEFINED)
+            # hasOwnProperty, isPrototypeOf ...: what every object inherits
+            object_proto = getattr(self.globals.get("Object"), "_prototype", None)
+            if isinstance(object_proto, JSObject):
+                return self._get_property(object_proto, key_str)
             return UNDEFINED
 
         if isinstance(obj, JSFunction):
@@ -2901,6 +2915,9 @@ class VM:
             except ValueError:
                 pass  # Not a number, allow as string property
             obj.set(key_str, value)
+        elif isinstance(obj, JSRegExp) and key_str in _REGEXP_ACCESSORS:
+            # source, flags and the flag properties are accessors without a setter
+            raise JSTypeError(f"Cannot set property {key_str} which has only a getter")
         elif isinstance(obj, JSFunction):
             # Functions are not JSObjects; the one writable property they carry is
             # `prototype`, which `new`, instanceof and reads of F.prototype consult.
